@@ -6,6 +6,7 @@ package main
 import (
 	"fmt"
 	"math/big"
+	"sort"
 	"strings"
 
 	sdkmath "cosmossdk.io/math"
@@ -27,6 +28,7 @@ type Monitors struct {
 	evals    int
 	prev     *Snap
 	prevDump []string
+	prevOvm  *ovmSnap
 }
 
 func NewMonitors() *Monitors { return &Monitors{phStep: -99} }
@@ -54,6 +56,8 @@ func (m *Monitors) Check(c *Chain, o Op, res string) []string {
 	v = append(v, m.c13(c, o, res)...)
 	cur := c.Snapshot()
 	v = append(v, m.betMonitors(c, o, res, m.prev, cur)...)
+	v = append(v, m.c06(c, o, res)...)
+	v = append(v, m.c14(c, o, res)...)
 	m.prev = cur
 	m.evals++
 	return v
@@ -159,5 +163,203 @@ func (m *Monitors) c13(c *Chain, o Op, res string) []string {
 		v = append(v, fmt.Sprintf("C13 supply changed by %s during %s", delta, o.Kind))
 	}
 	m.prevSupply = sup
+	return v
+}
+
+// ---- C14 ------------------------------------------------------------------------------------------
+type ovmSnap struct {
+	vault []int64
+	props map[uint64]ovmProp
+}
+type ovmProp struct {
+	status, result int32
+	keys           []int64
+	leader         uint32
+	start          int64
+	votes          [][2]int64 // key, vote
+}
+
+func (c *Chain) ovmSnapshot() *ovmSnap {
+	ctx := c.Ctx()
+	s := &ovmSnap{props: map[uint64]ovmProp{}}
+	if kv, ok := c.App.OVMKeeper.GetKeyVault(ctx); ok {
+		for _, k := range kv.PublicKeys {
+			s.vault = append(s.vault, c.keyID(k))
+		}
+	}
+	ps, _ := c.App.OVMKeeper.GetAllPubkeysChangeProposals(ctx)
+	for _, p := range ps {
+		x := ovmProp{status: int32(p.Status), result: int32(p.Result), leader: p.Modifications.LeaderIndex, start: p.StartTS}
+		for _, k := range p.Modifications.PublicKeys {
+			x.keys = append(x.keys, c.keyID(k))
+		}
+		for _, v := range p.Votes {
+			x.votes = append(x.votes, [2]int64{c.keyID(v.PublicKey), int64(v.Vote)})
+		}
+		s.props[p.Id] = x
+	}
+	return s
+}
+
+func has(l []int64, x int64) bool {
+	for _, y := range l {
+		if y == x {
+			return true
+		}
+	}
+	return false
+}
+
+func sameList(a, b []int64) bool {
+	if len(a) != len(b) {
+		return false
+	}
+	for i := range a {
+		if a[i] != b[i] {
+			return false
+		}
+	}
+	return true
+}
+
+func (m *Monitors) c14(c *Chain, o Op, res string) []string {
+	var v []string
+	cur := c.ovmSnapshot()
+	prev := m.prevOvm
+	m.prevOvm = cur
+	// shape of the vault
+	seen := map[int64]bool{}
+	for _, k := range cur.vault {
+		if k < 0 || seen[k] {
+			v = append(v, fmt.Sprintf("C14 key vault %v holds an invalid or repeated key", cur.vault))
+		}
+		seen[k] = true
+	}
+	if len(cur.vault) < 4 || len(cur.vault) > 5 {
+		v = append(v, fmt.Sprintf("C14 key vault has %d keys", len(cur.vault)))
+	}
+	for id, p := range cur.props {
+		vs := map[int64]bool{}
+		for _, x := range p.votes {
+			if vs[x[0]] {
+				v = append(v, fmt.Sprintf("C14 key %d voted twice on proposal %d", x[0], id))
+			}
+			vs[x[0]] = true
+		}
+	}
+	if prev == nil {
+		return v
+	}
+	if !sameList(prev.vault, cur.vault) {
+		if o.Kind != "END" {
+			v = append(v, fmt.Sprintf("C14 key vault changed during %s", o.Kind))
+			return v
+		}
+		// replay the decisions of this EndBlock in proposal order against the vault at each decision
+		vault := prev.vault
+		var ids []uint64
+		for id := range cur.props {
+			ids = append(ids, id)
+		}
+		sort.Slice(ids, func(i, j int) bool { return ids[i] < ids[j] })
+		for _, id := range ids {
+			p := cur.props[id]
+			pp, ok := prev.props[id]
+			if !ok || pp.status != 1 || p.status != 2 || p.result != 1 {
+				continue
+			}
+			yes := 0
+			for _, x := range p.votes {
+				if x[1] == 2 && has(vault, x[0]) {
+					yes++
+				}
+			}
+			need := (2*len(vault) + 2) / 3
+			if yes < need {
+				v = append(v, fmt.Sprintf("C14 proposal %d approved with %d yes votes of currently registered keys, %d needed (vault %v, votes %v)", id, yes, need, vault, p.votes))
+			}
+			if c.Time-p.start > 1800 {
+				v = append(v, fmt.Sprintf("C14 proposal %d approved %d seconds after submission", id, c.Time-p.start))
+			}
+			nv := []int64{p.keys[p.leader]}
+			for i, k := range p.keys {
+				if uint32(i) != p.leader {
+					nv = append(nv, k)
+				}
+			}
+			vault = nv
+		}
+		if !sameList(vault, cur.vault) {
+			v = append(v, fmt.Sprintf("C14 key vault became %v but the approved proposals give %v", cur.vault, vault))
+		}
+	}
+	// a vote is recorded only with a ticket of the voting key
+	if o.Kind == "VOTE" && res == "ok" {
+		if int(o.VoterIdx) >= len(prev.vault) || prev.vault[o.VoterIdx] != o.Tk.Signer || o.Tk.Exp <= c.Time {
+			v = append(v, "C14 vote accepted with a ticket not signed by the voting key")
+		}
+	}
+	if o.Kind == "PROP" && res == "ok" {
+		if !has(prev.vault, o.Tk.Signer) || o.Tk.Exp <= c.Time {
+			v = append(v, "C14 proposal accepted with a ticket not signed by a registered key")
+		}
+	}
+	return v
+}
+
+// ---- C06 --------------------------------------------------------------------------------------------
+// An accepted ticket-bearing message must have carried a ticket signed by the leader registered
+// BEFORE the message (own key for votes, any registered key for proposals) with exp > block time,
+// and non-ignorable identity data naming the approved acting account.
+func (m *Monitors) c06(c *Chain, o Op, res string) []string {
+	var v []string
+	if res != "ok" || m.prevOvm == nil || len(m.prevOvm.vault) == 0 {
+		return v
+	}
+	leader := m.prevOvm.vault[0]
+	okLeader := func(t Ticket) bool { return t.Signer >= 0 && t.Signer == leader && t.Exp > c.Time }
+	kycOK := func(k Kyc, acting int64) bool { return k.Ignore || (k.Approved && k.ID == acting) }
+	switch o.Kind {
+	case "MADD", "MUPD", "MRES":
+		if !okLeader(o.Tk) {
+			v = append(v, "C06 "+o.Kind+" accepted with an invalid ticket")
+		}
+	case "DEP", "SDEP":
+		acting := o.Signer
+		if o.Kind == "DEP" && o.Depositor >= 0 {
+			acting = o.Depositor
+		}
+		if !okLeader(o.Tk) {
+			v = append(v, "C06 "+o.Kind+" accepted with an invalid ticket")
+		}
+		if !kycOK(o.Ky, acting) {
+			v = append(v, "C06 "+o.Kind+" accepted with identity data that does not approve the depositor")
+		}
+	case "WDR", "SWDR":
+		acting := o.Signer
+		if o.Depositor >= 0 {
+			acting = o.Depositor
+		}
+		if !okLeader(o.Tk) {
+			v = append(v, "C06 "+o.Kind+" accepted with an invalid ticket")
+		}
+		if !kycOK(o.Ky, acting) {
+			v = append(v, "C06 "+o.Kind+" accepted with identity data that does not approve the depositor")
+		}
+	case "WAG":
+		if !okLeader(o.Tk) {
+			v = append(v, "C06 WAG accepted with an invalid ticket")
+		}
+		if !kycOK(o.Ky, o.Signer) {
+			v = append(v, "C06 WAG accepted with identity data that does not approve the bettor")
+		}
+	case "SWAG":
+		if !okLeader(o.Tk) || !okLeader(o.Tk2) {
+			v = append(v, "C06 SWAG accepted with an invalid ticket")
+		}
+		if !kycOK(o.Ky, o.Signer) {
+			v = append(v, "C06 SWAG accepted with identity data that does not approve the bettor")
+		}
+	}
 	return v
 }
